@@ -335,7 +335,52 @@ def run_pred(ctx, p):
     ctx.nontrivial('pred', which, str(p['want']), core.short(core.J(p), 300))
 
 
-RUNNERS = {'line': run_line, 'transform': run_transform, 'pair': run_pair, 'plane': run_plane, 'pred': run_pred}
+def run_line_history(ctx, p):
+    """query a line object, replace the line it holds through the documented list interface, query again: every answer must be
+    the geometry of the line held NOW (compared with a freshly built object and with the defining points)"""
+    sm = S()
+    P1, Q1, P2, Q2, x = (np.asarray(p[k], dtype=np.float64) for k in ('P1', 'Q1', 'P2', 'Q2', 'x'))
+    how = p['how']
+    sig = dict(api='Plucker.after_update', how=how)
+    try:
+        L = sm.Plucker.PQ(P1, Q1)
+        M = sm.Plucker.PQ(P2, Q2)
+        # first round of queries (whatever they cache)
+        L.pp, L.uw, L.point(0.5), L.closest(x), L.contains(P1)
+        if how == 'setitem':
+            L[0] = M
+        elif how == 'insert_pop':
+            L.insert(0, M)
+            L.pop()
+        elif how == 'append_pop0':
+            L.append(M)
+            L.pop(0)
+        elif how == 'reverse':
+            L.append(M)
+            L.reverse()
+            L.pop()
+        else:           # in-place write into the stored vector
+            L.A[:] = M.A
+        F = sm.Plucker.PQ(P2, Q2)
+        m = mag(P2, Q2, x)
+        d = Q2 - P2
+        ppw = P2 + d * float(np.dot(-P2, d) / np.dot(d, d))
+        cp, cd = L.closest(x)[0], L.closest(x)[1]
+        fw, fd = F.closest(x)[0], F.closest(x)[1]
+        checks = [('pp', md(L.pp, ppw)), ('pp vs fresh object', md(L.pp, F.pp)), ('uw', md(L.uw, F.uw)),
+                  ('point(0.5) on the line', on_line(np.asarray(L.point(0.5)).reshape(-1), P2, d)), ('point(-2) vs fresh', md(np.asarray(L.point(-2.0)).reshape(-1), np.asarray(F.point(-2.0)).reshape(-1))),
+                  ('closest point', md(np.asarray(cp).reshape(-1), np.asarray(fw).reshape(-1))), ('closest distance', abs(float(cd) - on_line(x, P2, d)))]
+    except Exception as e:
+        ctx.bad('line', dict(sig, kind='raised', exc=type(e).__name__, where=_where(e)), 'line queries after %s raised %r' % (how, e))
+        return
+    for name, dv in checks:
+        ctx.judge('line', dv <= TOL * m, dict(sig, kind='stale_geometry', what=name.split(' ')[0]),
+                  lambda: 'after %s the object answers %s for the line it held before: off by %.3g (P1=%s Q1=%s now P2=%s Q2=%s)' % (how, name, dv, P1, Q1, P2, Q2))
+    ctx.cell('line_history', how)
+    ctx.nontrivial('line_history', how, [float('%.9g' % v) for v in np.r_[P1, Q1, P2, Q2]])
+
+
+RUNNERS = {'line_history': run_line_history, 'line': run_line, 'transform': run_transform, 'pair': run_pair, 'plane': run_plane, 'pred': run_pred}
 
 
 def REACH():
@@ -395,11 +440,21 @@ def run(ctx):
             D2 = D1 * float(gen.logu(rng, 1e-2, 1e2)) * (1.0 if rng.random() < 0.7 else -1.0)
             P2, extra = point(rng), {}
         drive(RUNNERS, ctx, 'pair', dict(conf=conf, P1=P1, D1=D1, P2=P2, D2=D2, **extra))
+    for _ in range(ctx.scale(300, 5000)):
+        P1, Q1, P2, Q2 = point(rng), point(rng), point(rng), point(rng)
+        if min(np.linalg.norm(P1 - Q1), np.linalg.norm(P2 - Q2)) < 1e-2 * mag(P1, Q1, P2, Q2):
+            continue
+        drive(RUNNERS, ctx, 'line_history', dict(P1=P1, Q1=Q1, P2=P2, Q2=Q2, x=point(rng), how=['setitem', 'insert_pop', 'append_pop0', 'reverse', 'write'][rng.integers(5)]))
     for _ in range(ctx.scale(1200, 20000)):
         which = ['PN', 'Planes', 'intersect_plane', 'P3'][rng.integers(4)]
         if which == 'P3':
             A3 = np.column_stack([point(rng), point(rng), point(rng)])
-            if np.linalg.norm(np.cross(A3[:, 1] - A3[:, 0], A3[:, 2] - A3[:, 0])) < 1e-3:
+            if rng.random() < 0.4:       # small triangle far from the origin (sides 1e-2 .. 1, coordinates up to 1e3)
+                c0, side = gen.unit_axis(rng) * gen.logu(rng, 1e1, 1e3), gen.logu(rng, 1e-2, 1.0)
+                A3 = np.column_stack([c0, c0 + gen.unit_axis(rng) * side, c0 + gen.unit_axis(rng) * side])
+                if np.linalg.norm(np.cross(A3[:, 1] - A3[:, 0], A3[:, 2] - A3[:, 0])) < 0.2 * side * side:
+                    continue
+            if np.linalg.norm(np.cross(A3[:, 1] - A3[:, 0], A3[:, 2] - A3[:, 0])) < 1e-5:
                 continue
             drive(RUNNERS, ctx, 'plane', dict(which=which, pts=A3))
         elif which == 'PN':
